@@ -67,6 +67,21 @@ class TermMatch:
                 out.append((a, tr))
         return out
 
+    def index_leaves(self):
+        """[(facts, value)] of the expression handed to `Term(index_=...)`: its gated value (helpers read through,
+        the match's group dictionary read through) split at every conditional."""
+        from fsa.gated import SymExec, canon, leaves
+        se = SymExec(self.f.fi.node, extra_helpers=self.f._pure_helpers())
+        ix = kwarg(self.term, 'index_') or self.term.args[2]
+        v = canon(se.value(self.ret.ast, ix))
+        return leaves(v)
+
+    def norm_raw(self, t: str) -> str:
+        """Text with every way of reading the INDEX group written the same way."""
+        for r in self.raw_forms:
+            t = t.replace(r, '<INDEX>')
+        return t
+
     def groupdict_names(self) -> List[str]:
         out = []
         for n in self.f.cfg.nodes:
